@@ -104,17 +104,23 @@ func TestVerifGrpcProxyRoundTrip(t *testing.T) {
 					res = fmt.Sprintf("contains=%v", ok)
 				} else {
 					rc, _, err := p.proxy.Get(ctx, kind, hash, 100)
-					res = fmt.Sprintf("reader=%v err=%v", rc != nil, err != nil)
+					served := false
 					if rc != nil {
+						// the client streams lazily: an absent blob shows when the reader is read
+						// (read the way the disk cache does, with io.Copy: the client's reader answers a failed
+						// stream with n = -1, which io.ReadAll does not survive)
+						_, rerr := io.Copy(io.Discard, rc)
 						_ = rc.Close()
+						served = rerr == nil
 					}
+					res = fmt.Sprintf("served=%v err=%v", served, err != nil)
 				}
 			}()
 			rec.Note(fmt.Sprintf("absent %s %s -> %s", kind.String(), op, res))
 			rec.Distinct("absent:" + kind.String() + ":" + op)
 			if strings.HasPrefix(res, "panic") {
 				rec.Violation("C12,C14", "grpcproxy.absent-panic."+op, fmt.Sprintf("%s of an absent %s entry through the gRPC back-end client: %s", op, kind.String(), res), map[string]string{"kind": kind.String(), "op": op})
-			} else if res == "contains=true" || strings.HasPrefix(res, "reader=true") {
+			} else if res == "contains=true" || strings.HasPrefix(res, "served=true") {
 				rec.Violation("C12", "grpcproxy.absent-hit", fmt.Sprintf("%s of an absent %s entry: %s", op, kind.String(), res), nil)
 			}
 		}
@@ -147,7 +153,9 @@ func TestVerifGrpcProxyRoundTrip(t *testing.T) {
 						rerr = fmt.Errorf("panic while reading: %v", r)
 					}
 				}()
-				got, rerr = io.ReadAll(rc)
+				var buf bytes.Buffer
+				_, rerr = io.Copy(&buf, rc)
+				got = buf.Bytes()
 				_ = rc.Close()
 			}()
 			if rerr != nil || sz != int64(n) || (mode == "uncompressed" && !bytes.Equal(got, data)) {
